@@ -453,6 +453,14 @@ def check(ctx):
         m = cls.methods.get(name)
         if m is None:
             raise AnalysisError("anchor vanished: ListOfDicts.__deepcopy__")
+        # each item is copied on its own: a memo shared between the items makes an item that occurs twice in the list ONE copy,
+        # so the two positions of the copy are the same dict
+        for _, c in calls_in(m):
+            if (repo.dotted(m, c.func) or "") == "copy.deepcopy" and (len(c.args) > 1 or any(k.arg == "memo" for k in c.keywords)):
+                ctx.ob("EFF-3", m, norm(c)[:60], c, False,
+                       f"{norm(c)[:50]} shares one memo between the items: a dict that occurs at several positions of the list is copied once "
+                       f"and the copy's positions alias each other (an editor applied to the copy, e.g. full_join's numbering, changes both)",
+                       clause="deepcopy returns a list whose later modification ...; every left item in order")
         v = I.summary(m).returns
         if v is None or v.kind != "lod":
             ctx.ob("EFF-3", m, "return value of __deepcopy__", m.node, False,
